@@ -15,7 +15,7 @@ LEVEL = "exploration"
 DESIGN_REF = "DESIGN.md §3 C18"
 RULE = (
     "Histories of constructions (arbitrary positional / keyword arguments) and clear_true_singleton(cls) / "
-    "clear_true_singleton() calls over a fresh family per case: P, Q(P) (subclass of a singleton class), R (instances falsy via __len__), T (keyword-only, falsy via __bool__) and N (its __init__ constructs R: nested construction); the harness keeps no reference to instances between calls.  "
+    "clear_true_singleton() calls over a fresh family per case: P, Q(P) (subclass of a singleton class), R (instances falsy via __len__), T (keyword-only, falsy via __bool__) N (its __init__ constructs R: nested construction) and Y (its __init__ refuses some arguments, and for others issues a global clear from inside __init__); the harness keeps no reference to instances between calls.  "
     "Bounded-exhaustive for all histories up to the stated length over {P,Q(P),R(falsy)} x 2 argument selections + targeted "
     "and global clears, Hypothesis up to 60 operations.  Oracle = dict model: construct => the model's instance if "
     "one is live (identity, __init__ not re-run, stored args are the first call's) else a new object of exactly that "
@@ -43,7 +43,7 @@ def budget(tier):
 
 
 def strategy(tier):
-    op = st.tuples(st.sampled_from(["new", "new", "new", "clear"]), st.integers(0, 6), st.integers(0, len(ARGSETS) - 1))
+    op = st.tuples(st.sampled_from(["new", "new", "new", "clear"]), st.integers(0, 7), st.integers(0, len(ARGSETS) - 1))
     return st.builds(lambda ops: {"ops": [list(o) for o in ops]}, st.lists(op, max_size=60))
 
 
@@ -109,8 +109,21 @@ def check_case(case):
             self.inner_serial = inner.serial
             del inner
 
-    CL = [P, Q, R, T, N]
-    names = "PQRTN"
+    class Y(metaclass=S.TrueSingleton):
+        """__init__ refuses some arguments (a failed construction must leave the class constructible), and for
+        one argument it issues a GLOBAL clear from inside __init__ (re-entrancy)."""
+
+        def __init__(self, *a, **k):
+            if a and a[0] == 1 and not k:
+                raise ValueError("refused")
+            ninit[0] += 1
+            self.serial = ninit[0]
+            self.args = (a, k)
+            if k.get("k", 0) == 2:
+                S.clear_true_singleton()
+
+    CL = [P, Q, R, T, N, Y]
+    names = "PQRTNY"
     model = {}          # class -> (serial, args)
     cleared_since = {}
     nt_a = nt_b = False
@@ -119,16 +132,32 @@ def check_case(case):
         for step, (op, ci, ai) in enumerate(case["ops"]):
             where = f"step {step} {op} {ci} {ai}"
             if op == "new":
-                c = CL[ci % 5]
+                c = CL[ci % 6]
                 a, k = ARGSETS[ai]
                 if c is T:
                     k = {kk: vv for kk, vv in k.items() if kk == "k"}
                 n0 = ninit[0]
                 nested_new = (c is N and c not in model and R not in model)
+                refused = c is Y and c not in model and a and a[0] == 1 and not k
+                clears_all = c is Y and c not in model and not refused and k.get("k", 0) == 2
                 try:
                     o = c(*a, **k)
+                except ValueError as e:
+                    if refused:
+                        classes.add("construction-refused-by-__init__")
+                        continue        # nothing may have been registered: the next construction starts afresh
+                    raise Violation("construct-raised", f"{where}: {e!r}")
                 except Exception as e:  # noqa
                     raise Violation("construct-raised", f"{where}: {e!r}")
+                if refused:
+                    raise Violation("refused-construction-returned-object", where)
+                if clears_all:
+                    # the global clear ran inside __init__, i.e. BEFORE this construction completed: every other
+                    # class starts afresh; the instance under construction is the live one from now on
+                    for cc in list(model):
+                        cleared_since[cc] = True
+                    model = {}
+                    classes.add("clear-all-from-inside-__init__")
                 if nested_new:
                     # N.__init__ constructed R (no arguments) as a side effect: R is live from now on
                     require(ninit[0] == n0 + 2, "init-count", f"{where}: nested construction ran __init__ {ninit[0] - n0} times, expected 2")
@@ -140,7 +169,7 @@ def check_case(case):
                     classes.add("nested-construction-hit")
                 if c in model:
                     require(getattr(o, "serial", None) == model[c][0] and type(o) is c, "second-instance-created",
-                            f"{where}: {names[ci % 5]} already has a live instance (serial {model[c][0]}), got serial {getattr(o, 'serial', None)} of class {type(o).__name__}")
+                            f"{where}: {names[ci % 6]} already has a live instance (serial {model[c][0]}), got serial {getattr(o, 'serial', None)} of class {type(o).__name__}")
                     require(ninit[0] == n0, "init-ran-again", where)
                     require(o.args == model[c][1], "stored-args-changed", f"{where}: args now {o.args}, first call's were {model[c][1]}")
                 else:
@@ -166,7 +195,7 @@ def check_case(case):
                         model = {}
                         classes.add("clear-all")
                     else:
-                        c = CL[ci % 5]
+                        c = CL[ci % 6]
                         if c not in model:
                             classes.add("clear-class-without-instance")
                         else:
